@@ -212,6 +212,18 @@ func cmdStruct(args []string) {
 					vals = append(vals, lit(1))
 				}
 				drvLines[i]["ins"] = []any{stv(vals...)}
+			case "misc":
+				switch q["sub"] {
+				case "nested":
+					fmt.Fprintf(&src, "\ntype XS%d struct {\n\tX       int\n\tName    int\n\tContact struct{ Name int }\n}\ntype XT%d struct {\n\tName    int\n\tContact struct{ Name int }\n}\n\n// goverter:converter\n%stype C%d interface {\n\t// goverter:map X Name\n\tConv(source XS%d) XT%d\n}\n", i, i, head(i), i, i, i)
+					drvLines[i]["ins"] = []any{stv(lit(1), lit(2), stv(lit(3)))}
+				case "two-automap":
+					fmt.Fprintf(&src, "\ntype XH%d struct{ Street int }\ntype XJ%d struct{ Title int }\ntype XS%d struct {\n\tHome XH%d\n\tJob  XJ%d\n}\ntype XT%d struct {\n\tStreet int\n\tTitle  int\n}\n\n// goverter:converter\n%stype C%d interface {\n\t// goverter:autoMap Home\n\t// goverter:autoMap Job\n\tConv(source XS%d) XT%d\n}\n", i, i, i, i, i, i, head(i), i, i, i)
+					drvLines[i]["ins"] = []any{stv(stv(lit(4)), stv(lit(5)))}
+				default:
+					fmt.Fprintf(&src, "\ntype XM%d struct{ Tags []int }\ntype XS%d struct{ Meta *XM%d }\ntype XT%d struct{ Tags []int }\n\n// goverter:converter\n// goverter:useZeroValueOnPointerInconsistency\n%stype C%d interface {\n\t// goverter:map Meta.Tags Tags\n\tConv(source XS%d) XT%d\n}\n", i, i, i, i, head(i), i, i, i)
+					drvLines[i]["ins"] = []any{stv(ptrv(stv(map[string]any{"k": "s", "a": "i", "es": []any{lit(7)}}))), stv(nilv())}
+				}
 			case "reuse":
 				fmt.Fprintf(&src, "\ntype XI%d struct{ C int }\ntype XS%d struct {\n\tA int\n\tB int\n\tInner XI%d\n}\ntype XT%d struct {\n\tA int\n\tC int\n}\n\n// goverter:converter\n// goverter:ignoreMissing\n%stype C%d interface {\n", i, i, i, i, head(i), i)
 				switch q["setting"] {
@@ -558,6 +570,45 @@ func cmdStruct(args []string) {
 		case "fieldx":
 			base["prog"] = s.Prog
 			base["full"] = -1
+			var q map[string]any
+			hx.Must(json.Unmarshal(s.Prog, &q))
+			if q["x"] == "misc" {
+				vals := []int{98, 98}
+				base["panic"] = false
+				for _, r := range byID[i] {
+					nExec++
+					if r["panic"] == true {
+						base["panic"] = true
+						continue
+					}
+					j := int(r["j"].(float64))
+					f := r["out"].(map[string]any)["fs"].([]any)
+					first := func(v any) int {
+						m := v.(map[string]any)
+						switch m["k"] {
+						case "nil":
+							return 99
+						case "s":
+							if es := m["es"].([]any); len(es) == 1 {
+								return litOf(es[0])
+							}
+							return -3
+						case "st":
+							return litOf(m["fs"].([]any)[0])
+						}
+						return litOf(v)
+					}
+					switch q["sub"] {
+					case "path-slice":
+						vals[j] = first(f[0])
+					default:
+						vals[0], vals[1] = first(f[0]), first(f[1])
+					}
+				}
+				base["vals"] = vals
+				obs.Write(base)
+				continue
+			}
 			for _, r := range byID[i] {
 				nExec++
 				if r["panic"] != true {
